@@ -339,7 +339,7 @@ fn conformance(rep: &mut Report, root: &std::path::Path) {
         let h = cb.next_height();
         let mut txs = vec![coinbase(h, 1, vec![pay(1, 50 * COIN_VALUE)])];
         for t in 0..n_tx {
-            txs.push(Tx { version: 1, segwit: false, inputs: vec![TxIn::spend([0xee; 32], t as u32)], outputs: (0..n_out).map(|k| if k % 5 == 4 { refmodel::ser::TxOut { value: 0, script: refmodel::script::op_return(format!("t{}o{}", t, k).as_bytes()) } } else { pay(((t * 7 + k) % 250) as u8, (t * 100 + k) as u64 + 1) }).collect(), locktime: 0 });
+            txs.push(Tx { version: 1, segwit: false, inputs: vec![TxIn::spend([0xee; 32], t as u32)], outputs: (0..n_out).map(|k| if k % 5 == 4 { refmodel::ser::TxOut { value: 0, script: refmodel::script::op_return(format!("t{}o{}", t, k).as_bytes()) } } else { pay(((t * 7 + k) % 250) as u8, (t * 100 + k) as u64 + 1) }).collect(), locktime: 0, wide: 0 });
         }
         cb.push_raw(txs);
     }
@@ -351,8 +351,8 @@ fn conformance(rep: &mut Report, root: &std::path::Path) {
         let same: Vec<refmodel::ser::TxOut> = (0..300usize).map(|k| pay(78, 5 + k as u64)).collect();
         cb.push_raw(vec![
             coinbase(h, 1, vec![pay(1, 50 * COIN_VALUE)]),
-            Tx { version: 1, segwit: false, inputs: vec![TxIn::spend([0xee; 32], 9000)], outputs: rep, locktime: 0 },
-            Tx { version: 1, segwit: false, inputs: vec![TxIn::spend([0xee; 32], 9001)], outputs: same, locktime: 0 },
+            Tx { version: 1, segwit: false, inputs: vec![TxIn::spend([0xee; 32], 9000)], outputs: rep, locktime: 0, wide: 0 },
+            Tx { version: 1, segwit: false, inputs: vec![TxIn::spend([0xee; 32], 9001)], outputs: same, locktime: 0, wide: 0 },
         ]);
     }
     {
@@ -360,7 +360,7 @@ fn conformance(rep: &mut Report, root: &std::path::Path) {
         let h = cb.next_height();
         let mut txs = vec![coinbase(h, 1, vec![pay(1, 50 * COIN_VALUE)])];
         for t in 0..4500usize {
-            txs.push(Tx { version: 1, segwit: false, inputs: vec![TxIn::spend([0xed; 32], t as u32)], outputs: vec![pay((t % 250) as u8, 1 + t as u64)], locktime: t as u32 });
+            txs.push(Tx { version: 1, segwit: false, inputs: vec![TxIn::spend([0xed; 32], t as u32)], outputs: vec![pay((t % 250) as u8, 1 + t as u64)], locktime: t as u32, wide: 0 });
         }
         cb.push(txs);
     }
